@@ -837,6 +837,10 @@ func runStorage(r *mon.Run, seq []stRec, q *int64) {
 		for _, n := range x.Names {
 			rec.Names = append(rec.Names, stNames[n])
 		}
+		if len(x.Names) == 0 && x.A%2 == 1 {
+			// "without names" also comes as an empty, non-nil slice (a resliced buffer, a parser's leftover)
+			rec.Names = make([]string, 0, 2)
+		}
 		return rec
 	}
 	for _, x := range seq {
